@@ -1236,7 +1236,7 @@ class PhasedVcfWriter(VcfAugmenter):
                 # is genotype to be changed?
                 if pos in genotypes and genotypes[pos] != gt_type:
                     # call['GT'] = INT_TO_UNPHASED_GT[genotypes[pos]]
-                    call["GT"] = tuple(genotypes[pos].as_vector())
+                    call["GT"] = tuple(sorted(genotypes[pos].as_vector()))
                     variant: Union[BiallelicVcfVariant, MultiallelicVcfVariant]
                     if len(record.alts) > 1:
                         variant = MultiallelicVcfVariant(record.start, record.ref, record.alts)
